@@ -661,6 +661,10 @@ class VAMTransmissionManagement:
         if self.last_vam_generation_delta_time is None:
             self.send_next_vam(vam=vam_to_send)
             return
+        if "time" not in tpv:
+            # The trigger conditions are evaluated on the reports' timestamps: a report
+            # without one cannot be used (gpsd omits optional TPV fields it does not know)
+            return
         received_generation_delta_time = GenerationDeltaTime.from_timestamp(
             parser.parse(tpv["time"]).timestamp()
         )
@@ -673,15 +677,16 @@ class VAMTransmissionManagement:
         ):
             self.send_next_vam(vam=vam_to_send)
             return
-        received_position = (tpv["lat"], tpv["lon"])
-        if (
-            Utils.euclidian_distance(
-                received_position, self.last_sent_position)
-            > vam_constants.MINREFERENCEPOINTPOSITIONCHANGETHRESHOLD
-        ):
-            self.send_next_vam(vam=vam_to_send)
-            return
-        if (
+        if "lat" in tpv and "lon" in tpv:
+            received_position = (tpv["lat"], tpv["lon"])
+            if (
+                Utils.euclidian_distance(
+                    received_position, self.last_sent_position)
+                > vam_constants.MINREFERENCEPOINTPOSITIONCHANGETHRESHOLD
+            ):
+                self.send_next_vam(vam=vam_to_send)
+                return
+        if "speed" in tpv and (
             abs(
                 tpv["speed"]
                 - self.last_vam_speed
